@@ -566,48 +566,76 @@ func stringLess(rsi, rsj string, desc bool) int {
 func CellString(s string) *string {
 	return &s
 }
+
+// kindRank orders cells of different kinds: NULL cells first, then strings,
+// nodes, predicates, literals and time anchors.
+func kindRank(c *Cell) int {
+	switch {
+	case c.S != nil:
+		return 1
+	case c.N != nil:
+		return 2
+	case c.P != nil:
+		return 3
+	case c.L != nil:
+		return 4
+	case c.T != nil:
+		return 5
+	}
+	return 0
+}
+
+// CompareCells orders two cells by value; it returns -1, 0 or 1. Cells of
+// different kinds are ordered by kind. Literals compare by value (numbers
+// numerically, see literal.Compare), time anchors as instants, strings, nodes
+// and predicates by their printed form.
+func CompareCells(ci, cj *Cell) int {
+	ki, kj := kindRank(ci), kindRank(cj)
+	switch {
+	case ki < kj:
+		return -1
+	case ki > kj:
+		return 1
+	}
+	switch ki {
+	case 1:
+		return strings.Compare(*ci.S, *cj.S)
+	case 2:
+		return strings.Compare(ci.N.String(), cj.N.String())
+	case 3:
+		return strings.Compare(ci.P.String(), cj.P.String())
+	case 4:
+		return ci.L.Compare(cj.L)
+	case 5:
+		switch {
+		case ci.T.Before(*cj.T):
+			return -1
+		case ci.T.After(*cj.T):
+			return 1
+		}
+	}
+	return 0
+}
+
 func rowLess(ri, rj Row, c SortConfig) bool {
-	if c == nil {
-		return false
+	for _, cfg := range c {
+		ci, ok := ri[cfg.Binding]
+		if !ok {
+			log.Fatalf("Could not retrieve binding %q! %v %v", cfg.Binding, ri, rj)
+		}
+		cj, ok := rj[cfg.Binding]
+		if !ok {
+			log.Fatalf("Could not retrieve binding %q! %v %v", cfg.Binding, ri, rj)
+		}
+		l := CompareCells(ci, cj)
+		if cfg.Desc {
+			l = -l
+		}
+		if l != 0 {
+			return l < 0
+		}
 	}
-	cfg, last := c[0], len(c) == 1
-	ci, ok := ri[cfg.Binding]
-	if !ok {
-		log.Fatalf("Could not retrieve binding %q! %v %v", cfg.Binding, ri, rj)
-	}
-	cj, ok := rj[cfg.Binding]
-	if !ok {
-		log.Fatalf("Could not retrieve binding %q! %v %v", cfg.Binding, ri, rj)
-	}
-	si, sj := "", ""
-	// Check if it has a string.
-	if ci.S != nil && cj.S != nil {
-		si, sj = *ci.S, *cj.S
-	}
-	// Check if it has a nodes.
-	if ci.N != nil && cj.N != nil {
-		si, sj = ci.N.String(), cj.N.String()
-	}
-	// Check if it has a predicates.
-	if ci.P != nil && cj.P != nil {
-		si, sj = ci.P.String(), cj.P.String()
-	}
-	// Check if it has a literal.
-	if ci.L != nil && cj.L != nil {
-		si, sj = ci.L.ToComparableString(), cj.L.ToComparableString()
-	}
-	// Check if it has a time anchor.
-	if ci.T != nil && cj.T != nil {
-		si, sj = ci.T.Format(time.RFC3339Nano), cj.T.Format(time.RFC3339Nano)
-	}
-	l := stringLess(si, sj, cfg.Desc)
-	if l < 0 {
-		return true
-	}
-	if l > 0 || last {
-		return false
-	}
-	return rowLess(ri, rj, c[1:])
+	return false
 }
 
 // Less returns true if the i row is less than j one.
@@ -936,24 +964,11 @@ func (t *Table) Reduce(cfg SortConfig, aaps []AliasAccPair) error {
 		return nil
 	}
 	t.unsafeSort(cfg)
-	last, lastIdx, current, newData := "", 0, "", []Row{}
-	id := func(r Row) string {
-		res := bytes.NewBufferString("")
-		for _, c := range cfg {
-			res.WriteString(r[c.Binding].String())
-			res.WriteString(";")
-		}
-		return res.String()
-	}
+	// The rows of a group are the ones the sort cannot tell apart.
+	lastIdx, newData := 0, []Row{}
 	for idx, r := range t.Data {
-		current = id(r)
-		// First time.
-		if last == "" {
-			last, lastIdx = current, idx
-			continue
-		}
-		// Still in the same group.
-		if last == current {
+		if !rowLess(t.Data[lastIdx], r, cfg) && !rowLess(r, t.Data[lastIdx], cfg) {
+			// Still in the same group.
 			continue
 		}
 		// A group reduce operation is needed.
@@ -962,7 +977,7 @@ func (t *Table) Reduce(cfg SortConfig, aaps []AliasAccPair) error {
 			return err
 		}
 		newData = append(newData, nr)
-		last, lastIdx = current, idx
+		lastIdx = idx
 	}
 	nr, err := t.unsafeFullGroupRangeReduce(lastIdx, len(t.Data), maaps)
 	if err != nil {
